@@ -40,3 +40,18 @@ impl scroll::ctx::TryIntoCtx<scroll::Endian> for MDMemoryDescriptor {
     fn try_into_ctx(self, dst: &mut [u8], ctx: scroll::Endian) -> (r: Result<usize, scroll::Error>) { unimplemented!() }
 }
 }
+verus! {
+#[derive(Clone, Copy)]
+pub struct MDRawThread {
+    pub thread_id: u32, pub suspend_count: u32, pub priority_class: u32, pub priority: u32, pub teb: u64,
+    pub stack: MDMemoryDescriptor, pub thread_context: MDLocationDescriptor,
+}
+impl Default for MDLocationDescriptor {
+    fn default() -> (r: Self) ensures r.data_size == 0 && r.rva == 0 { MDLocationDescriptor { data_size: 0, rva: 0 } }
+}
+impl Default for MDMemoryDescriptor {
+    fn default() -> (r: Self) ensures r.start_of_memory_range == 0 && r.memory.data_size == 0 && r.memory.rva == 0 {
+        MDMemoryDescriptor { start_of_memory_range: 0, memory: MDLocationDescriptor { data_size: 0, rva: 0 } }
+    }
+}
+}
